@@ -28,7 +28,7 @@ func (o *Oblig) Query(withModel bool, extra string) string {
 	for _, d := range x.decls {
 		b.WriteString(d + "\n")
 	}
-	for _, s := range x.steps[:o.NSteps] {
+	for _, s := range relevantSteps(x.steps[:o.NSteps], o.PC+" "+o.Goal+" "+extra) {
 		b.WriteString("(assert " + s + ")\n")
 	}
 	fmt.Fprintf(&b, "; obligation %s: %s\n", o.Name, o.Desc)
@@ -192,4 +192,61 @@ func dischargeAll(obs []*Oblig, dir string, par, quickSecs, fullSecs int) {
 		}(o)
 	}
 	wg.Wait()
+}
+
+var symRe = regexp.MustCompile(`\|[^|]+\|`)
+
+// relevantSteps keeps the assumptions in the cone of influence of the goal:
+// an assumption is kept if it shares a declared symbol with the goal, the path
+// condition, or (transitively) another kept assumption.  Dropping assumptions
+// is always sound; it removes e.g. the range and frame axioms of memory
+// versions the obligation never mentions.
+func relevantSteps(steps []string, seed string) []string {
+	if len(steps) < 400 {
+		return steps
+	}
+	syms := make([][]string, len(steps))
+	bySym := map[string][]int{}
+	for i, s := range steps {
+		seen := map[string]bool{}
+		for _, m := range symRe.FindAllString(s, -1) {
+			if !seen[m] {
+				seen[m] = true
+				syms[i] = append(syms[i], m)
+				bySym[m] = append(bySym[m], i)
+			}
+		}
+	}
+	keep := make([]bool, len(steps))
+	relevant := map[string]bool{}
+	var work []string
+	for _, m := range symRe.FindAllString(seed, -1) {
+		if !relevant[m] {
+			relevant[m] = true
+			work = append(work, m)
+		}
+	}
+	for len(work) > 0 {
+		m := work[len(work)-1]
+		work = work[:len(work)-1]
+		for _, i := range bySym[m] {
+			if keep[i] {
+				continue
+			}
+			keep[i] = true
+			for _, n := range syms[i] {
+				if !relevant[n] {
+					relevant[n] = true
+					work = append(work, n)
+				}
+			}
+		}
+	}
+	var out []string
+	for i, s := range steps {
+		if keep[i] || len(syms[i]) == 0 {
+			out = append(out, s)
+		}
+	}
+	return out
 }
